@@ -13,6 +13,7 @@ from lib.parts import run_parts, replay_parts
 PARTS = [("checks.ops_views", "run_part", {"prop": "C14"}),
          ("checks.ops_algebra", "run_part", {"as_pid": "C14"}),
          ("checks.kernels_vector", "run_part", {"props_file": "Props/C14_vector.v"}),
+         ("checks.kernels_scalar", "run_part", {"props_file": "Props/C14_scalar.v"}),
          ("checks.ops_convpool", "run_part_c14", {}),
          ("checks.ops_modules", "run_part", {})]
 
